@@ -16,4 +16,16 @@ META = {
  "C04": dict(level="model_checking", technique=GEN,
    text="All selector x target x block-placement programs in scope are enumerated by TLC with the specified binding, warning count and error class and replayed into bcl.Interpret.",
    note=TB),
+ "C05": dict(level="model_checking", technique=GEN,
+   text="The documented matching rule (tag first, case/underscore folding, type-name rule, Name field, no coercion) is an explicit TLA+ module; TLC enumerates descriptor x block cases with the required target value; the harness realises each descriptor with reflect.StructOf (or a declared type), calls Bind and Unmarshal (on the rendered BCL text) and compares with reflect.DeepEqual.",
+   note=TB + " Only descriptor-expressible Go types are generated (no generic, recursive or method-bearing types)."),
+ "C15": dict(level="model_checking", technique=GEN,
+   text="The same specification states when a copy must fail (missing/unexported/mismatching/nil/non-struct/colliding counterpart, unusable target); TLC enumerates binding kind x target kind x descriptor x block; the real Bind must not panic, must return an error exactly there, and must leave slice targets untouched on error.",
+   note=TB + " Where the property leaves the outcome open (empty block name with a non-string Name field, embedded structs) only absence of panics is required."),
+ "C16": dict(level="model_checking", technique=GEN + "; verdict = equality between repeated runs of the real code chosen by the specification",
+   text="The specification marks the inputs whose outcome would depend on map order (two failing entries, colliding keys) and supplies programs and rejected inputs with several diagnostics; every call is repeated in one process and in fresh processes with GOMAXPROCS 1/4/16 and must give identical dumps, outputs, diagnostics, blocks, bindings, targets and errors; Execute must leave the dump unchanged.",
+   note=TB + " Determinism is observed, not proved: a difference that needs more repetitions than are run stays unseen."),
+ "C17": dict(level="model_checking", technique=GEN,
+   text="The grammar is an explicit precedence-climbing recogniser plus static rules in TLA+ (no error recovery); TLC enumerates all short token strings, all viable sentence prefixes with every single-token mutation, random long sentences and multi-statement programs with broken statements; the real parser must accept exactly the derivable ones, diagnose every rejection in the documented form, stay silent on acceptance and diagnose later broken statements on their own line.",
+   note=TB + " Token classes stand for their members (== for !=, * for /); layout is single spaces (layout is C20's subject)."),
 }
